@@ -23,16 +23,19 @@ CFG = {
             "probe Send; schedules: plain runtime, random Gosched, priority (PCT-style) and gated perturbation at the five verif yield points in "
             "Send/remove (when the hook is present) and at the harness' call boundaries, GOMAXPROCS cycling 1/2/4/all. Each round's observable "
             "history is judged by the Spec (no loss, no duplicate, nsent = deliveries, common order, no placement after Unsubscribe returned, "
-            "termination) in Go and by the Lean acceptor; internal state at quiescence is compared with the model. Non-trivial = a round that ran to "
+            "termination) in Go and by the Lean acceptor; internal state at quiescence is compared with the model. Every tier also rebuilds the "
+            "harness with -race and runs a 10 s (thorough 60 s) child: fresh zero-value Feeds with first Send || first Subscribe || first Send, fresh "
+            "SubscriptionScopes with Track || Close || Count, and scheduled rounds; a race-detector report is a violation of kind data-race. Non-trivial = a round that ran to "
             "completion (distinct histories counted).",
     "tie": {"Feed.Send / Feed.remove / Feed.Subscribe": "corr (trace validation: observed histories of the real code judged by the Spec that the model "
                                                          "is proved to satisfy; never compares two runs)",
             "f.sendCases / f.inbox at quiescence": "corr (overlay accessor vs model theorem quiescent_membership)",
             "SubscriptionScope.Track/Close/Count": "model Aqv.Model.Scope (theorems scope_*) + direct judgement on the real code (kinds late, api)",
             "feedSub.Unsubscribe (errOnce)": "direct Spec judgement on the real code (model: one remove per subscription)",
+            "data races (first use of f.etype, once.Do(init), scope map)": "race detector on the real code in every tier (obligation named by etype_write_requires_mu)",
             "yield points": "verif hook present: %s" % _HOOK},
     "assumptions": ["Go runtime semantics are modelled, not verified: channel operations, reflect.Select choosing some ready case, sync.Mutex, sync.Once; "
-                    "the Go memory model is not represented, so data races are outside the theorems (thorough tier runs the harness under -race)",
+                    "the Go memory model is not represented, so data races are outside the theorems (a -race child runs in every tier; the thorough tier runs the whole harness under -race)",
                     "one model step = code between two interleaving points (channel/lock operations); a subscription = one distinct channel, one remove per subscription",
                     "liveness (send_terminates/remove_terminates) is proved for executions satisfying Aqv.Feed.Fair: weak fairness per goroutine, no channel "
                     "stays forever subscribed and unable to accept a value, and a goroutine blocked on <-f.sendLock does not wait forever while the token "
@@ -48,5 +51,5 @@ META = {
             "goroutine, receivers keep receiving, fair hand-off of the sendLock token; nothing assumed about which ready case reflect.Select picks); "
             "scope_close_unsubscribes_all, scope_track_after_close_returns_nil, scope_count_after_close_zero hold for the SubscriptionScope model; every run re-checks them and drives the real event.Feed through thousands "
             "of perturbed schedules whose observed histories must satisfy the same Spec (judged in Go and by the compiled Lean acceptor).",
-    "note": GEN + " Data races and scheduler fairness are runtime matters: the harness runs under -race in the thorough tier; liveness is proved relative to the explicit fairness assumptions (Aqv.Feed.Fair).",
+    "note": GEN + " Data races and scheduler fairness are runtime matters: a -race sub-run is part of every tier; liveness is proved relative to the explicit fairness assumptions (Aqv.Feed.Fair).",
 }
